@@ -26,6 +26,7 @@ def check(ctx):
     n1 = escapes.check_str(ctx, rep)
     n2 = escapes.check_uri(ctx, rep)
     n3 = escapes.check_raw_interpolations(ctx, rep)
+    escapes.check_quoted_interpolations(ctx, rep)
     rep.floor("Str writer cells", n1, 8)
     rep.floor("Uri writer cells", n2, 4)
     rep.floor("quoted interpolations checked (Ref.dis, XStr.value)", n3, 2)
